@@ -267,12 +267,14 @@ public:
 
 		auto node = handle.lock();
 		if(node && node->counter != removedCounter) {
-			EVENTPP_VERIF_ACCESS(node.get(), false, "cl.node.previous");
-			while(node->previous) {
-				node = node->previous;
-				EVENTPP_VERIF_ACCESS(node.get(), false, "cl.node.previous");
+			// Look the node up in this list instead of walking from the node to its head: the handle may
+			// belong to another list (then the answer is false), and that list's links are protected by
+			// that list's mutex, not by the one held here.
+			for(NodePtr current = head; current; current = current->next) {
+				if(current == node) {
+					return true;
+				}
 			}
-			return node == head;
 		}
 
 		return false;
